@@ -44,7 +44,17 @@ func buildType(code int, codeTag string, fields []fieldSpec) reflect.Type {
 	for _, f := range fields {
 		tag := fmt.Sprintf(`uhppote:"offset:%d"`, f.off)
 		if f.fixed != "" {
-			tag = fmt.Sprintf(`uhppote:"offset:%d, value:%s"`, f.off, f.fixed)
+			// (the two clauses of a tag are independent of each other: either order, any separator)
+			switch (f.off + len(fields)) % 4 {
+			case 0:
+				tag = fmt.Sprintf(`uhppote:"offset:%d, value:%s"`, f.off, f.fixed)
+			case 1:
+				tag = fmt.Sprintf(`uhppote:"value:%s, offset:%d"`, f.fixed, f.off)
+			case 2:
+				tag = fmt.Sprintf(`uhppote:"offset:%d; value:%s"`, f.off, f.fixed)
+			case 3:
+				tag = fmt.Sprintf(`uhppote:"offset:%d value:%s"`, f.off, f.fixed)
+			}
 		}
 		sf := reflect.StructField{Name: f.name, Type: f.k.typ, Tag: reflect.StructTag(tag)}
 		if f.goName != "" {
